@@ -42,7 +42,7 @@ def sym_string(e, name, n, specials, exclude=''):
 
 def sym_len(e, name, lo, hi):
     """fork over a length in [lo, hi]"""
-    k = e.branch([True] * (hi - lo + 1))
+    k = e.choose(hi - lo + 1)
     return lo + k
 
 
